@@ -6447,6 +6447,14 @@ if( num_in_rd_block < DISK_BLOCK_SIZE ||  /*- buffer is not full -*/
 
 } /* end if */
 
+   /* the last block of a file is short: what lies beyond the bytes
+      obtained from the file was not read */
+if( data_length < 0 ||
+    block_offset + (cgulong_t)data_length > (cgulong_t)num_in_rd_block ) {
+   *error_return = FREAD_ERROR ;
+   return ;
+   } /* end if */
+
    /*read from buffer*/
 memcpy( data, &rd_block_buffer[block_offset], (size_t)data_length );
 
